@@ -243,4 +243,133 @@ func genC21(g *gen) {
 		gate = gateIdx >= 0 && acceptIdx > gateIdx
 	}
 	g.line("Definition gen_ws_gate_before_accept : bool := %s.", coqBool(gate))
+
+	// --- the credential check itself -------------------------------------------------
+	// package-level variables of package socks5 (any file): the Valid methods and
+	// Authenticate may read none of them except dummyHash (no remembered logins, no switches)
+	pkgVars := map[string]bool{}
+	for _, f := range parseDir("internal/socks5") {
+		for _, d := range f.Decls {
+			if gd, ok := d.(*ast.GenDecl); ok && gd.Tok == token.VAR {
+				for _, sp := range gd.Specs {
+					if vs, ok := sp.(*ast.ValueSpec); ok {
+						for _, n := range vs.Names {
+							pkgVars[n.Name] = true
+						}
+					}
+				}
+			}
+		}
+	}
+	usesOnlyDummy := func(fd *ast.FuncDecl) bool {
+		ok := true
+		ast.Inspect(fd.Body, func(n ast.Node) bool {
+			switch x := n.(type) {
+			case *ast.SelectorExpr:
+				ast.Inspect(x.X, func(m ast.Node) bool {
+					if id, isId := m.(*ast.Ident); isId && pkgVars[id.Name] && id.Name != "dummyHash" {
+						ok = false
+					}
+					return true
+				})
+				return false // do not look at field / method names
+			case *ast.Ident:
+				if pkgVars[x.Name] && x.Name != "dummyHash" {
+					ok = false
+				}
+			}
+			return true
+		})
+		return ok
+	}
+	// every return of a Valid method is `false` or the one accepting comparison
+	storedVar := func(recv string) string {
+		// first statement: <stored>, ok := <receiver>[<first parameter>]
+		fd := findFunc(auth, recv, "Valid")
+		if fd == nil || fd.Body == nil || len(fd.Body.List) == 0 {
+			return ""
+		}
+		ps := paramNames(fd)
+		as, ok := fd.Body.List[0].(*ast.AssignStmt)
+		if !ok || len(ps) != 2 || len(as.Lhs) != 2 || len(as.Rhs) != 1 {
+			return ""
+		}
+		ix, ok := as.Rhs[0].(*ast.IndexExpr)
+		rn := ""
+		if fd.Recv != nil && len(fd.Recv.List) == 1 && len(fd.Recv.List[0].Names) == 1 {
+			rn = fd.Recv.List[0].Names[0].Name
+		}
+		if ok && src(ix.X) == rn && isIdent(ix.Index, ps[0]) {
+			return src(as.Lhs[0]) + "|" + ps[1]
+		}
+		return ""
+	}
+	validShape := func(recv string, accept func(string) bool) (bool, bool) {
+		fd := findFunc(auth, recv, "Valid")
+		if fd == nil || fd.Body == nil {
+			return false, false
+		}
+		accepting, other := 0, 0
+		ast.Inspect(fd.Body, func(n ast.Node) bool {
+			if r, isRet := n.(*ast.ReturnStmt); isRet && len(r.Results) == 1 {
+				e := strings.ReplaceAll(src(r.Results[0]), " ", "")
+				switch {
+				case e == "false":
+				case accept(e):
+					accepting++
+				default:
+					other++
+				}
+			}
+			return true
+		})
+		return accepting == 1 && other == 0, usesOnlyDummy(fd)
+	}
+	hv, sv := strings.Split(storedVar("HashedCredentials")+"|", "|"), strings.Split(storedVar("StaticCredentials")+"|", "|")
+	hashedOK, hashedPure := validShape("HashedCredentials", func(e string) bool {
+		return hv[0] != "" && e == "bcrypt.CompareHashAndPassword([]byte("+hv[0]+"),[]byte("+hv[1]+"))==nil"
+	})
+	staticOK, staticPure := validShape("StaticCredentials", func(e string) bool {
+		return sv[0] != "" && e == "subtle.ConstantTimeCompare([]byte("+sv[0]+"),[]byte("+sv[1]+"))==1"
+	})
+	g.line("Definition gen_hashed_valid_true_only_when_bcrypt_compare_is_nil : bool := %s.", coqBool(hashedOK))
+	g.line("Definition gen_static_valid_true_only_when_passwords_compare_equal : bool := %s.", coqBool(staticOK))
+	g.line("Definition gen_valid_reads_no_package_state : bool := %s.", coqBool(hashedPure && staticPure))
+	g.line("Definition gen_valid_looks_up_exactly_the_presented_user : bool := %s.", coqBool(hv[0] != "" && sv[0] != ""))
+	// Authenticate: one call of Credentials.Valid on exactly the bytes read, a failing check returns an
+	// error, and the only error-free return comes after it
+	authOK := false
+	if fd := findFunc(auth, "UserPassAuthenticator", "Authenticate"); fd != nil && fd.Body != nil {
+		validCalls := 0
+		checkPos := token.NoPos
+		ast.Inspect(fd.Body, func(n ast.Node) bool {
+			switch x := n.(type) {
+			case *ast.CallExpr:
+				if strings.HasSuffix(calleeName(x), ".Credentials.Valid") {
+					validCalls++
+				}
+			case *ast.IfStmt:
+				if strings.ReplaceAll(src(x.Cond), " ", "") == "!a.Credentials.Valid(string(username),string(password))" {
+					for _, b := range x.Body.List {
+						if r, ok := b.(*ast.ReturnStmt); ok && len(r.Results) == 2 && src(r.Results[1]) != "nil" {
+							checkPos = x.Pos()
+						}
+					}
+				}
+			}
+			return true
+		})
+		okReturns, okAfter := 0, 0
+		ast.Inspect(fd.Body, func(n ast.Node) bool {
+			if r, ok := n.(*ast.ReturnStmt); ok && len(r.Results) == 2 && src(r.Results[1]) == "nil" {
+				okReturns++
+				if checkPos != token.NoPos && r.Pos() > checkPos {
+					okAfter++
+				}
+			}
+			return true
+		})
+		authOK = validCalls == 1 && checkPos != token.NoPos && okReturns == 1 && okAfter == 1 && usesOnlyDummy(fd)
+	}
+	g.line("Definition gen_authenticate_succeeds_only_after_valid : bool := %s.", coqBool(authOK))
 }
